@@ -47,6 +47,12 @@ def run(ctx):
         part = ctx.path("pp%d.ndjson" % (b // B))
         vlib.write_ndjson(part, rows[b:b + B])
         vlib.validate_cases(ctx, "C20Trace", "C20Trace.cfg", part, label="parses%d" % (b // B), timeout=3300, **kwp)
+    # generated parsers that trim trailing whitespace (fixWhitespace) with injected comments: rules ending in nullable symbols,
+    # with and without a trailing state marker
+    gout = ctx.path("genfw.ndjson")
+    ctx.vhrun(["c20-gen", ctx.path("fwmod"), gout, "400" if thorough else "60"], timeout=3000)
+    vlib.run(["rm", "-rf", ctx.path("fwmod")], check=False)
+    vlib.validate_cases(ctx, "C20Trace", "C20Trace.cfg", gout, label="generated-fixws", timeout=3300, **kwp)
     ctx.cov["exhaustive"] = True
     ctx.cov["rule"] = ("(a) every well-nested event stream of <= %d nodes over positions 0..4 (all admissible report orders, empty nodes included) is replayed into the real tm "
                        "tree builder and the dumped tree validated by TLC; (b) %d runs of the shipped tm/js/json/test parsers on repository texts with up to 3 mutations: the "
